@@ -11,11 +11,16 @@ Inductive cmd := W (s : list Z) | NL | IN | DE.      (* write(s) | newline() | i
 Record wst := { out : list Z; ind : nat; at_start : bool }.
 Definition w0 : wst := {| out := []; ind := 0; at_start := true |}.
 Definition spaces (n : nat) : list Z := repeat 32 n.
+(* write_indent: indentation level n with width w is exactly n * w spaces, for EVERY n (no cap, no table) *)
+Definition indent_width : nat := 4.
+Definition indent_of (w n : nat) : list Z := spaces (n * w).
+(* the mutant that slices the indentation out of a fixed run of [cap] spaces *)
+Definition capped_indent (w cap n : nat) : list Z := spaces (Nat.min (n * w) cap).
 
 Definition step (st : wst) (c : cmd) : wst :=
   match c with
   | W [] => st                                                     (* write("") returns early *)
-  | W s => {| out := out st ++ (if at_start st then spaces (ind st * 4) else []) ++ s; ind := ind st; at_start := false |}
+  | W s => {| out := out st ++ (if at_start st then indent_of indent_width (ind st) else []) ++ s; ind := ind st; at_start := false |}
   | NL => {| out := out st ++ [10]; ind := ind st; at_start := true |}
   | IN => {| out := out st; ind := S (ind st); at_start := at_start st |}
   | DE => {| out := out st; ind := pred (ind st); at_start := at_start st |}
